@@ -3,7 +3,8 @@ SPEC_PART = dict(
     legs=[dict(family="freq", focus="foreign", oracles=["prop_foreign", "prop_roundtrip"], profiles=["debug", "release"],
                n_quick=30, n_thorough=600,
                panic_is_violation=True)],
-    trusted=["Frequent Items format = my reading of the Java/C++ layout (DESIGN.md Appendix A): empty iff (flags & 5) != 0, the two top "
+    trusted=["Frequent Items: the Coq codec model and the theorems of this part are for i64 items only; u64 items are answered by the same model (same bits, same hash, same image bytes: harness ops 40..52), String images (u32 length + UTF-8 per item) are covered by crate-only checks: round trip equal on every accessor / row / re-serialized pairs, no panic, allocation proportional to the input",
+             "Frequent Items format = my reading of the Java/C++ layout (DESIGN.md Appendix A): empty iff (flags & 5) != 0, the two top "
              "bits of byte 0 are not part of preamble longs, unused fields are not interpreted; no upstream files available offline"],
     assumptions=["Frequent Items: foreign images hold at most 3/4 * 2^lg_cur counters with lg_cur >= 3 (what Java/C++ writers produce), "
                  "i64 items, offset + counters <= stream weight < 2^64, lg_max <= 62"],
